@@ -240,9 +240,12 @@ func VerifC06Cycle() {
 	case 1: // a includes itself
 		a["include"] = []any{"inc.yaml"}
 		cyc = true
-	case 2: // a -> b -> a
-		a["include"] = []any{"../b/inc.yaml"}
-		b["include"] = []any{"../a/inc.yaml"}
+	case 2: // a -> b -> a, each hop written relative, absolute, or absolute but not in its shortest form
+		sp := vrtChoice("spelling", 4)
+		pa := []string{"../a/inc.yaml", w + "/a/inc.yaml", w + "//a/inc.yaml", w + "/b/../a/./inc.yaml"}[sp]
+		pb := []string{"../b/inc.yaml", w + "/b/inc.yaml", w + "//b/inc.yaml", w + "/a/../b/./inc.yaml"}[sp]
+		a["include"] = []any{pb}
+		b["include"] = []any{pa}
 		cyc = true
 	case 3: // b includes the main file
 		a["include"] = []any{"../b/inc.yaml"}
